@@ -12,7 +12,8 @@ EXPLANATION = ('between_comparer, congruence_comparer, eigenvector_comparer, Mat
                '(equals/offset modes) and MatrixGrader.validate_student_input_shape are called directly with targets, student values, scale '
                'factors and tolerances as z3 reals; z3 decides the documented iff on every path: between <=> real and start<=x<=stop; '
                'congruence <=> exists k with |x - t - k*m| <= tol; eigenvector: refused as zero <=> ||v|| <= tol, else accepted <=> ||Mv - lambda v|| <= tol; '
-               'entry comparer: full <=> all entries match, zero <=> none, else flat / proportional fraction; shape mismatches are reported per policy.')
+               'entry comparer: full <=> all entries match, zero <=> none, else flat / proportional fraction; shape mismatches are reported per policy.'
+               ' LinearComparer with symbolic credits for equals/offset in any order; vector_span / vector_phase for one real vector with least squares stubbed by the exact projection.')
 ASSUMPTIONS = ['congruence modulus is a concrete positive number (1, 3, 2*pi as a double); target and input range over [-10,10] so the witness k is bounded',
                'eigenvector/entry comparers: 2x2 (3x3 thorough) matrices / vectors of symbolic entries; absolute tolerances symbolic, percentage tolerances from a list']
 BOUNDS = {'quick': 'between: all reals; congruence: 3 moduli x symbolic target/input/tolerance; eigenvector 2x2; entry comparer 2-vectors and 2x2, 1-2 samples; '
